@@ -220,6 +220,12 @@ func run(r *lib.Run) {
 			}(i)
 		}
 	}()
+	// moved-endpoint worlds wait for R's own revalidation timers: all of them at once, alongside
+	mvWorlds := r.Pick(6, 36)
+	for i := 0; i < mvWorlds; i++ {
+		hsWg.Add(1)
+		go func(i int) { defer hsWg.Done(); runMovedWorld(r, i) }(i)
+	}
 	wantResp := respWorlds * (len(netAskers)*respPerAsker + respDirect)
 	wantAsk := askWorlds * (len(netResponders)*askPerResp + askDirect)
 	var doneResp, doneAsk int
@@ -254,6 +260,10 @@ func run(r *lib.Run) {
 	hsWg.Wait()
 	if doneResp != wantResp || doneAsk != wantAsk {
 		r.FloorMiss("executed %d/%d responder requests and %d/%d asker replies", doneResp, wantResp, doneAsk, wantAsk)
+	}
+	r.Count("moved_worlds", mvWorlds)
+	if r.Counter("moved_worlds_new_record_installed") == 0 {
+		r.Inconclusive("moved-endpoint group: in none of %d worlds did R's revalidation install the peer's new record within the scheduling window", mvWorlds)
 	}
 	if want := hsWorlds * hsRounds * len(hsVariants[0].askers); doneHs != want {
 		r.FloorMiss("executed %d/%d hearsay requests", doneHs, want)
